@@ -237,9 +237,16 @@ SCHED_PROFILES = {
 }
 
 
+# profiles that are only used when a family names them (not part of the default choice)
+EXTRA_PROFILES = {
+    # delays anywhere below one tick period: two consecutive TICKs of a peer may arrive within one local tick period
+    'wide': {'delay': {'kind': 'uniform', 'lo': 0.01, 'hi': 4.5}, 'loop_period': (0.2, 1.0)},
+}
+
+
 def gen_sched(rng, specs, profiles=None):
     name = rng.choice(profiles or list(SCHED_PROFILES))
-    sched = dict(SCHED_PROFILES[name])
+    sched = dict(SCHED_PROFILES.get(name) or EXTRA_PROFILES[name])
     sched['name'] = name
     sched['cut_block'] = rng.choice([[0.0, 0.0], [0.2, 2.0], [2.0, 12.0]])
     sched['restart_delay'] = rng.choice([(0.3, 2.0), (2.0, 8.0), (8.0, 25.0)])
